@@ -266,6 +266,9 @@ pub fn harness_error(msg: &str) -> ! {
 /// under check; any other panic is a harness error.
 pub fn install_panic_hook(default_prop: &'static str) {
     std::panic::set_hook(Box::new(move |info| {
+        if crate::ebr::EXPECT_PANIC.with(|p| p.get()) {
+            return;
+        }
         let loc = info
             .location()
             .map(|l| format!("{}:{}", l.file(), l.line()))
